@@ -467,6 +467,20 @@ def contract_fbf():
     return c
 
 
+def to_case_fbf(ob):
+    """frame_by_frame_calculation under C01: the stand-in's fbf cases (via='fbf') over small geometries of all three framing modes, signal
+    lengths around the frame-count boundaries, chunk sizes 1, 2, the shift, the frame length, longer than the signal"""
+    cases = []
+    for mode in MODES:
+        for L, s in ((4, 2), (5, 3), (6, 1), (4, 4), (7, 5)):
+            base = {"computer": "stft", "frame_style": "causal" if mode == "causal" else "centered", "kaldi_shift": mode == "kaldi",
+                    "frame_length": L, "frame_shift": s, "sampling_rate": 1000, "bank": "fbank1", "seed": 0, "via": "fbf"}
+            for N in sorted({0, 1, L // 2, L // 2 + 1, L, L + 1, 2 * L + 1, 3 * L + 2}):
+                for cs in sorted({1, 2, s, L, 3 * L + 5}):
+                    cases.append(dict(base, N=N, fbf_chunk_size=cs, chunks=[N]))
+    return cases
+
+
 def to_case_c04(ob):
     """candidate call histories for the C04 stand-in's replay: a first utterance of every length T <= 3L+2 (streamed in one
     chunk, or frame by frame), finalize (twice for some), then a second utterance compared with a fresh instance"""
